@@ -1350,7 +1350,7 @@ impl WorldA {
             0 => json!({"transfer":{"recipient": self.pick_any(rng), "amount": amount_near(rng, mybal).to_string()}}),
             1 => {
                 let target = if rng.chance(4, 5) { rng.pick(&self.sinks).clone() } else { self.pick_any(rng) };
-                json!({"send":{"contract": target, "amount": amount_near(rng, mybal).to_string(), "msg": base64(&[rng.below(256) as u8; 3])}})
+                json!({"send":{"contract": target, "amount": amount_near(rng, mybal).to_string(), "msg": gen_payload(rng)}})
             }
             2 => json!({"burn":{"amount": amount_near(rng, mybal).to_string()}}),
             3 => {
@@ -1393,7 +1393,7 @@ impl WorldA {
                     6 => json!({"transfer_from":{"owner": owner, "recipient": self.pick_any(rng), "amount": amt}}),
                     7 => {
                         let target = if rng.chance(4, 5) { rng.pick(&self.sinks).clone() } else { self.pick_any(rng) };
-                        json!({"send_from":{"owner": owner, "contract": target, "amount": amt, "msg": base64(b"x")}})
+                        json!({"send_from":{"owner": owner, "contract": target, "amount": amt, "msg": gen_payload(rng)}})
                     }
                     _ => json!({"burn_from":{"owner": owner, "amount": amt}}),
                 }
@@ -1450,6 +1450,16 @@ impl WorldA {
             }
         }
         script
+    }
+}
+
+/// the payload attached to Send / SendFrom: the degenerate shapes (empty, one zero byte) as well as ordinary and long ones
+fn gen_payload(rng: &mut Rng) -> String {
+    match rng.below(8) {
+        0 | 1 => base64(&[]),
+        2 => base64(&[0u8]),
+        3 => base64(&vec![rng.below(256) as u8; 70]),
+        _ => base64(&[rng.below(256) as u8; 3]),
     }
 }
 
